@@ -1328,4 +1328,31 @@ pub mod verif {
     pub use super::header_session::verif as header_session;
     pub use super::shwap::verif as shwap;
     pub use super::shrex::verif as shrex;
+
+    // C27: a real `P2p` on a command channel owned by the caller (what `P2p::mocked`
+    // builds under cfg(test)).  Needs a tokio runtime context for the dummy join handle.
+    pub struct HeaderRangeP2p(P2p);
+
+    pub fn header_range_p2p(channel_capacity: usize) -> (HeaderRangeP2p, header_session::CmdRx) {
+        let (cmd_tx, cmd_rx) = mpsc::channel(channel_capacity);
+        let (_peer_tracker_tx, peer_tracker_rx) = watch::channel(PeerTrackerInfo::default());
+        let p2p = P2p {
+            cmd_tx,
+            cancellation_token: CancellationToken::new(),
+            join_handle: spawn(async {}),
+            peer_tracker_info_watcher: peer_tracker_rx,
+            local_peer_id: PeerId::random(),
+        };
+        (HeaderRangeP2p(p2p), header_session::CmdRx(cmd_rx))
+    }
+
+    impl HeaderRangeP2p {
+        pub fn get_verified_headers_range<'a>(
+            &'a self,
+            from: &'a ExtendedHeader,
+            amount: u64,
+        ) -> std::pin::Pin<Box<dyn Future<Output = Result<Vec<ExtendedHeader>>> + 'a>> {
+            Box::pin(self.0.get_verified_headers_range(from, amount))
+        }
+    }
 }
